@@ -330,6 +330,13 @@ impl Node {
     fn ptr_eq(&self, other: &Node) -> bool {
         self.weak().ptr_eq(&other.weak())
     }
+    /// Called from stabilise_end, after stabilisation_num was incremented.
+    fn changed_this_stabilisation(&self) -> bool {
+        match self.state_opt() {
+            Some(state) => self.changed_at.get().add1() == state.stabilisation_num.get(),
+            None => true,
+        }
+    }
 }
 
 impl ErasedNode for Node {
@@ -991,8 +998,11 @@ impl ErasedNode for Node {
             NodeUpdateDelayed::Unnecessary
         } else {
             match self.value_as_any().is_some() {
-                true => NodeUpdateDelayed::Changed,
-                false => NodeUpdateDelayed::Necessary,
+                // Only report a change if the value changed in the stabilisation that is
+                // finishing (stabilise_end has already bumped stabilisation_num). A node can be
+                // queued for handling for other reasons: a new observer or subscription.
+                true if self.changed_this_stabilisation() => NodeUpdateDelayed::Changed,
+                _ => NodeUpdateDelayed::Necessary,
             }
         }
     }
